@@ -35,9 +35,9 @@ inductive TD where
   | bool | str | bytes
   | barr (n : Nat)           -- [n]byte
   | time | dur
-  | iface (id : String)
+  | iface (id : Bytes)
   | list (ptr nilElems : Bool) (elem : TD)   -- slice; `ptr`: element type is a pointer
-  | ref (name : String)      -- a struct (or registered alias) defined in the environment
+  | ref (name : Bytes)       -- a struct (or registered alias) defined in the environment
   | marsh (goStruct : Bool) (repr : TD)   -- AminoMarshaler (Go kind struct?): encoded as its repr
   | unsupported
 deriving Repr, DecidableEq, Inhabited
@@ -54,15 +54,16 @@ inductive Def where
   | alias (td : TD)
 deriving Repr, Inhabited
 
+/-- names (Any full names, interface ids) are byte strings: kernel-friendly. -/
 structure Entry where
-  name : String
-  ifaces : List String
+  name : Bytes
+  ifaces : List Bytes
   defn : Def
 deriving Repr, Inhabited
 
 abbrev Env := List Entry
 
-def Env.find? (env : Env) (name : String) : Option Entry :=
+def Env.find? (env : Env) (name : Bytes) : Option Entry :=
   List.find? (fun e => e.name == name) env
 
 inductive Val where
@@ -75,14 +76,36 @@ inductive Val where
   | nil
   | list (vs : List Val)
   | struct (vs : List Val)
-  | any (name : String) (v : Val)
+  | any (name : Bytes) (v : Val)
   | m (goZero : Bool) (v : Val)
 deriving Repr, Inhabited
+
+mutual
+/-- boolean equality of values (kernel-evaluable; `deriving DecidableEq` does not
+cover nested inductives).  `Val.beq_refl` / `Val.eq_of_beq` are in Proofs/C20Val.lean. -/
+def Val.beq : Val → Val → Bool
+  | .u p, .u q => p == q
+  | .i p, .i q => p == q
+  | .b p, .b q => p == q
+  | .x p, .x q => p == q
+  | .t p1 p2, .t q1 q2 => p1 == q1 && p2 == q2
+  | .d p, .d q => p == q
+  | .nil, .nil => true
+  | .list ps, .list qs => Val.beqList ps qs
+  | .struct ps, .struct qs => Val.beqList ps qs
+  | .any n1 p, .any n2 q => n1 == n2 && Val.beq p q
+  | .m g1 p, .m g2 q => g1 == g2 && Val.beq p q
+  | _, _ => false
+def Val.beqList : List Val → List Val → Bool
+  | [], [] => true
+  | p :: ps, q :: qs => Val.beq p q && Val.beqList ps qs
+  | _, _ => false
+end
 
 /-! ### typ3 and the struct-or-unpacked test -/
 
 /-- The type a `ref` stands for, if it is an alias (registered non-struct type). -/
-def aliasOf (env : Env) (name : String) : Option TD :=
+def aliasOf (env : Env) (name : Bytes) : Option TD :=
   match env.find? name with
   | some ⟨_, _, .alias td⟩ => some td
   | _ => none
@@ -308,7 +331,7 @@ def enc (env : Env) (td : TD) (v : Val) (fnum : Nat) (bare byteOpt : Bool) : Enc
             let value ← enc env ctd cv 0 false false
             pure (fieldBytes 1 (typ3 env ctd) value false)
           else enc env ctd cv 1 true false
-        let buf := encKey 1 .blen ++ encBytes ("/" ++ name).toUTF8.toList ++
+        let buf := encKey 1 .blen ++ encBytes (47 :: name) ++
           (if buf2.isEmpty || buf2 == [0] then [] else encKey 2 .blen ++ encBytes buf2)
         pure (writeMaybeBare buf bare)
     | _ => .error .badValue
@@ -385,7 +408,7 @@ def encFields (env : Env) (fs : List FieldD) (vs : List Val) : EncM Bytes :=
 end
 
 /-- `Codec.MarshalReflect` for the registered type `name`. -/
-def marshal (env : Env) (name : String) (v : Val) : EncM Bytes :=
+def marshal (env : Env) (name : Bytes) (v : Val) : EncM Bytes :=
   match env.find? name with
   | none => .error .unregistered
   | some ent =>
@@ -546,7 +569,7 @@ def dec (env : Env) : Nat → TD → Bytes → Nat → Bool → Bool → Nat →
     | _ => none
 
 /-- `decodeReflectBinaryInterface` + `decodeReflectBinaryAny`. -/
-def decIface (env : Env) : Nat → String → Bytes → Bool → Nat → Option (Val × Nat)
+def decIface (env : Env) : Nat → Bytes → Bytes → Bool → Nat → Option (Val × Nat)
   | 0, _, _, _, _ => none
   | k + 1, id, bz0, bare, depth =>
     if depth > maxAnyDepth then none else
@@ -580,10 +603,7 @@ def decIface (env : Env) : Nat → String → Bytes → Bool → Nat → Option 
             if !isASCIIText url then none else
             match fullnameOf url with
             | none => none
-            | some fn =>
-              match String.fromUTF8? (ByteArray.mk fn.toArray) with
-              | none => none
-              | some name =>
+            | some name =>
                 match env.find? name with
                 | none => none
                 | some ent =>
@@ -705,7 +725,7 @@ def fuelFor (env : Env) (bz : Bytes) : Nat :=
   (bz.length + fields + 16) * (bz.length + 16)
 
 /-- `Codec.UnmarshalReflect` into a fresh value of the registered type `name`. -/
-def unmarshal (env : Env) (name : String) (bz : Bytes) : Option Val :=
+def unmarshal (env : Env) (name : Bytes) (bz : Bytes) : Option Val :=
   match env.find? name with
   | none => none
   | some ent =>
